@@ -223,6 +223,7 @@ pub fn install_panic_hook() {
                     .map(|l| {
                         let f = l.file();
                         let f = f.rsplit("/src/").next().unwrap_or(f);
+                        let f = f.strip_prefix("src/").unwrap_or(f);
                         format!("{}:{}", f, l.line())
                     })
                     .unwrap_or_else(|| "?".to_string());
@@ -297,7 +298,7 @@ pub fn execute_plan(world: &dyn World, plan: &Plan, trace: bool) -> Outcome {
                 ctx.cur_prop
             };
             if ctx.violation.is_none() {
-                if loc.starts_with("worlds/") || loc.starts_with("core.rs") || loc.starts_with("tt.rs") {
+                if is_harness_location(loc) {
                     // the harness itself panicked: harness error, never a verdict
                     ctx.violation = Some(Violation {
                         property: "HARNESS".to_string(),
@@ -361,6 +362,12 @@ pub fn execute_plan(world: &dyn World, plan: &Plan, trace: bool) -> Outcome {
         out.stats.allocs = st.allocs;
     }
     out
+}
+
+/// does this panic location lie in the harness (rather than in rsdd)? Harness panics are harness errors
+/// (exit 2), never verdicts. rsdd's files live under /repo/src and keep a path such as `repr/bdd.rs`.
+fn is_harness_location(loc: &str) -> bool {
+    ["worlds/", "core.rs", "tt.rs", "runner.rs", "main.rs", "rng.rs", "alloc.rs", "supervise.rs", "props.rs"].iter().any(|p| loc.starts_with(p))
 }
 
 pub fn violation_class(v: &Violation) -> (String, String) {
